@@ -558,8 +558,8 @@ struct ViewDriver : DriverBase<ViewDriver> {
     void run()
     {
         for (int s = 0; s < 3; ++s) {
-            void* m1 = arena_prepare(s, sizeof(SP), plan.cfg, 1);
-            void* m2 = arena_prepare(3 + s, sizeof(SV), plan.cfg, 2);
+            void* m1 = arena_prepare(s, sizeof(SP), plan.cfg, 1, alignof(SP));
+            void* m2 = arena_prepare(3 + s, sizeof(SV), plan.cfg, 2, alignof(SV));
             sp[s]    = new (m1) SP(ibuf.p, kLen);
             sv[s]    = new (m2) SV(cbuf.p, kLen);
             msp[s]   = Win{0, kLen};
